@@ -168,6 +168,9 @@ const BODIES: &[(&str, &str)] = &[
     ("nonascii", "NAME() { echo \"grüße €\"; }"),
     ("arith", "NAME() { (( x = 1 + 2 )); echo $(( x * 2 )) ${x:-d} ${#x}; }"),
     ("alias-call", "NAME() { ll -a; a0; }"),
+    // needs `extglob` at parse time: the option has to be restored before the function is (the generator
+    // never switches extglob off again once such a body exists)
+    ("extglob", "shopt -s extglob\nNAME() { case \"$1\" in +(a|b)) echo ext;; !(c)) echo notc;; *) echo other;; esac; }"),
 ];
 
 const ALIAS_VALUES: &[(&str, &str)] = &[
@@ -841,6 +844,8 @@ fn case_hash(h: &History) -> u64 {
 // ---------------------------------------------------------------- generator
 
 struct Model {
+    /// a function body with extended glob syntax exists: extglob stays on
+    extglob_locked: bool,
     posix: bool,
     readonly_used: BTreeSet<&'static str>,
     ups: usize,
@@ -945,6 +950,9 @@ fn gen_op(rng: &mut Rng, m: &mut Model, risky: &Risky) -> Op {
                     name = "f0";
                 }
                 let body = if rng.chance(1, 3) { BODIES[rng.below(2)].1 } else { rng.pick(BODIES).1 };
+                if body_class(body) == "extglob" {
+                    m.extglob_locked = true;
+                }
                 Op::FnDef { name: name.to_string(), body: body.to_string() }
             }
             9 => {
@@ -971,7 +979,11 @@ fn gen_op(rng: &mut Rng, m: &mut Model, risky: &Risky) -> Op {
                 }
                 Op::SetO { opt: opt.to_string(), on }
             }
-            13 => Op::Shopt { opt: rng.pick(SHOPT_OPTS).to_string(), on: rng.chance(2, 3) },
+            13 => {
+                let opt = rng.pick(SHOPT_OPTS).to_string();
+                let on = rng.chance(2, 3) || (opt == "extglob" && m.extglob_locked);
+                Op::Shopt { opt, on }
+            }
             14 => match rng.below(4) {
                 0 | 1 => Op::Mkcd { dir: rng.pick(DIRS).to_string() },
                 2 => {
@@ -1027,7 +1039,7 @@ fn gen_history(rng: &mut Rng) -> History {
     let force_allexport = slot(rng, risky.allexport, n_steps - 1);
     let force_dashed = slot(rng, risky.dashed, n_steps - 1);
     let force_posix = slot(rng, risky.posix, n_steps);
-    let mut m = Model { posix: false, readonly_used: BTreeSet::new(), ups: 0 };
+    let mut m = Model { extglob_locked: false, posix: false, readonly_used: BTreeSet::new(), ups: 0 };
     let mut steps = vec![];
     for si in 0..n_steps {
         let n_ops = rng.range(1, 4);
@@ -1040,7 +1052,7 @@ fn gen_history(rng: &mut Rng) -> History {
         }
         if force_dashed == Some(si) && !m.posix {
             let name = *rng.pick(&["my-func", "g.h"]);
-            ops.push(Op::FnDef { name: name.into(), body: rng.pick(BODIES).1.to_string() });
+            ops.push(Op::FnDef { name: name.into(), body: rng.pick(&BODIES[..BODIES.len() - 1]).1.to_string() });
         }
         if force_readonly == Some(si) && !m.readonly_used.contains("R0") {
             m.readonly_used.insert("R0");
